@@ -2,15 +2,17 @@
 Line-protocol driver for the load path of C06 (temp-dir life cycle of image.FromV1Image).
 request : load <nlayers> <fail|-> <kind> <pos>                        (harness/cmd/c06load/main.go; = load2 L^n … 0 0)
           load2 <hist> <fail|-> <kind> <pos> <decoys> <seed>
+          load3 <hist> <fail|-> <kind> <pos> <decoys> <seed> <req> <entry>     (requirer and entry point do not change the life cycle)
           run <pre><mktemp><root> <layer outcomes> <decoys>            (model only: every exit of the loader, also those no
                                                                         input reaches: `root`, `haveLayer`)
             layer outcomes: newest chain layer first, `,`-separated, five 0/1 digits each: empty mkdir haveLayer opened filled; `-` = none
 reply   : err=<0|1> left=<directories in TMPDIR after the load> img=<0|1> clean=<directories in TMPDIR after CleanUp>
           others=<1 iff the directories that were in TMPDIR before are all there, unchanged, at the end>
-hist: one letter per chain layer, oldest first; L = layer with an archive, E = empty-layer history entry.
-kinds: c t h l n make `fillChainLayersWithFilesFromTar` fail for layer <fail>; e makes its `Uncompressed()` fail; p makes
+hist: one letter per chain layer, oldest first; L = layer with an archive, E = empty-layer history entry, X = layer with an
+archive whose history entry says EmptyLayer (invalid history: one chain layer per archive; for the life cycle an L).
+kinds: c t h l n k make `fillChainLayersWithFilesFromTar` fail for layer <fail>; e makes its `Uncompressed()` fail; p makes
 `os.Mkdir` of the first layer directory fail; m makes `os.MkdirTemp` fail; v (config) and y (`Layers()`) fail before any
-directory exists; b o u d - load fine.  TMPDIR starts with <decoys> directories (names 100, 101, each holding a layer
+directory exists; b o u d w g - load fine.  TMPDIR starts with <decoys> directories (names 100, 101, each holding a layer
 directory); `os.MkdirTemp` picks the name 1.
 -/
 import Scalibr.Base.Wire
@@ -38,11 +40,11 @@ def handle (line : String) : String :=
     | [k], some dc =>
       let failIdx : Option Nat := if fail = "-" then none else fail.toNat?
       if fail != "-" && failIdx.isNone then "bad-op" else
-      if !(hist.all fun c => c = 'L' || c = 'E') then "bad-op" else
-      let fatal := k = 'c' || k = 't' || k = 'h' || k = 'l' || k = 'n'
+      if !(hist.all fun c => c = 'L' || c = 'E' || c = 'X') then "bad-op" else
+      let fatal := k = 'c' || k = 't' || k = 'h' || k = 'l' || k = 'n' || k = 'k'
       let nl := hist.length
       -- the newest chain layer with an archive: the first whose directory is made
-      let newest : Option Nat := ((List.range nl).reverse.find? fun i => hist.getD i 'E' = 'L')
+      let newest : Option Nat := ((List.range nl).reverse.find? fun i => hist.getD i 'E' != 'E')
       -- chain layers newest first: index nl-1 … 0
       let layers : List LayerRun := (List.range nl).reverse.map fun i =>
         ⟨hist.getD i 'E' = 'E', !(k = 'p' && newest == some i), true, !(k = 'e' && failIdx == some i), !(fatal && failIdx == some i)⟩
@@ -54,6 +56,7 @@ def handle (line : String) : String :=
     | some n => go (List.replicate n 'L') fail kind "0"
     | none => "bad-op"
   | ["load2", hist, fail, kind, _pos, decoys, _seed] => go hist.toList fail kind decoys
+  | ["load3", hist, fail, kind, _pos, decoys, _seed, _req, _entry] => go hist.toList fail kind decoys
   | ["run", flags, ls, decoys] =>
     match flags.toList.mapM bit, (if ls = "-" then some [] else (ls.splitOn ",").mapM parseLayerRun), decoys.toNat? with
     | some [p, m, r], some layers, some dc => report (decoyDirs dc) ⟨p, m, r, layers⟩
